@@ -401,6 +401,9 @@ func (sc *C19Scenario) Execute(t *testing.T) *core.Outcome {
 			wantState, applicable := c19Model(linesToMap(before), ev.Data, known)
 			switch {
 			case applyErr != nil:
+				if m.Corrupt == "" && m.Type == "" { // (an entity type override may name another entity's collection)
+					out.V("round-trip-apply-failed", "message %d, built by the helper constructors (helper %d entity %d key %q) and stored unchanged, was rejected by Apply: %v (stored value %s)", i, m.Helper, m.Entity, m.Key, applyErr, trunc(string(doc["value"])))
+				}
 				if !reflect.DeepEqual(before, after) || mat.m.LastOffset() != lastBefore {
 					out.V("failed-apply-left-damage", "Apply returned %v for %q but changed state or LastOffset (%q -> %q):\n  before %v\n  after  %v", applyErr, trunc(string(ev.Data)), lastBefore, mat.m.LastOffset(), before, after)
 				}
